@@ -15,15 +15,41 @@ def load():
         return []
 
 
-def split(module, scenario, problems):
-    """-> (problems that are not explained by a listed finding, ids of the findings that explained some)"""
+def has_scenario(module, scenario):
+    """Is some finding tied to this scenario?  (Its exploration then uses a fixed seed, so that the listed histories are
+    exactly the ones a run can reach.)"""
+    return any((f.get("scenario") or {}).get("module") == module and (f.get("scenario") or {}).get("name") == scenario
+               for f in load())
+
+
+COLLECTED = {}          # tools/collect_known.py (development time): finding id -> set of schedule keys seen failing
+
+
+def schedule_key(sim):
+    """The history that failed: exploration mode + the choices actually taken (trailing FIFO choices dropped)."""
+    tr = list(getattr(sim, "last_trace", []) or [])
+    while tr and tr[-1] == 0:
+        tr.pop()
+    return "%s:%s" % (getattr(sim, "last_mode", "all"), ",".join(str(c) for c in tr))
+
+
+def split(module, scenario, problems, sim=None):
+    """-> (problems that are not explained by a listed finding, ids of the findings that explained some).
+    A finding that lists "schedules" explains its signatures only in those histories (mode + choice sequence) of its
+    scenario: the same symptom reached along any other history is reported."""
     base = scenario.split("/")[0]
     rest, hit = [], []
+    collecting = bool(os.environ.get("KNOWN_COLLECT"))
+    key = schedule_key(sim) if sim is not None else None
     for p in problems:
         ok = False
         for f in load():
             s = f.get("scenario")
             if s and s.get("module") == module and s.get("name") == base and any(p.startswith(x) for x in s.get("prefixes", [])):
+                if collecting and key is not None:
+                    COLLECTED.setdefault(f["id"], set()).add(key)
+                elif s.get("schedules") is not None and key is not None and key not in s["schedules"]:
+                    continue
                 ok = True
                 if f["id"] not in hit:
                     hit.append(f["id"])
